@@ -94,127 +94,21 @@ func c03BytesLit(e ast.Expr) (string, error) {
 	return c03StrLit(ce.Args[0])
 }
 
-// concatenated string constant expression
-func c03ConstString(e ast.Expr) (string, error) {
-	switch x := e.(type) {
-	case *ast.BasicLit:
-		return c03StrLit(x)
-	case *ast.BinaryExpr:
-		if x.Op != token.ADD {
-			return "", fmt.Errorf("unexpected operator in constant string")
-		}
-		a, err := c03ConstString(x.X)
-		if err != nil {
-			return "", err
-		}
-		b, err := c03ConstString(x.Y)
-		if err != nil {
-			return "", err
-		}
-		return a + b, nil
-	case *ast.ParenExpr:
-		return c03ConstString(x.X)
-	}
-	return "", fmt.Errorf("unexpected constant string expression %T", e)
-}
+// The tables of /repo are read through the type checker (eval.go): keys and values may be literals of any form, named
+// constants / package-level variables, constant expressions; declarations may live in any file of the package.
 
-// c03Hashes: constant name → attribute/tag name, from html/hash.go
-func c03Hashes(r *Repo) (map[string]string, error) {
-	fs, err := r.Files("html")
-	if err != nil {
-		return nil, err
-	}
-	vals := map[string]uint64{}
-	text := ""
-	for _, f := range fs {
-		for _, d := range f.Decls {
-			gd, ok := d.(*ast.GenDecl)
-			if !ok || gd.Tok != token.CONST {
-				continue
-			}
-			for _, s := range gd.Specs {
-				vs := s.(*ast.ValueSpec)
-				for i, n := range vs.Names {
-					if i >= len(vs.Values) {
-						continue
-					}
-					if n.Name == "_Hash_text" {
-						t, err := c03ConstString(vs.Values[i])
-						if err != nil {
-							return nil, err
-						}
-						text = t
-						continue
-					}
-					if id, ok := vs.Type.(*ast.Ident); ok && id.Name == "Hash" {
-						bl, ok := vs.Values[i].(*ast.BasicLit)
-						if !ok {
-							return nil, fmt.Errorf("hash constant %s is not a literal", n.Name)
-						}
-						v, err := strconv.ParseUint(bl.Value, 0, 32)
-						if err != nil {
-							return nil, err
-						}
-						vals[n.Name] = v
-					}
-				}
-			}
-		}
-	}
-	if text == "" || len(vals) == 0 {
-		return nil, fmt.Errorf("html/hash.go: _Hash_text or Hash constants not found")
-	}
-	out := map[string]string{}
-	for k, v := range vals {
-		st, n := int(v>>8), int(v&0xff)
-		if st+n > len(text) {
-			return nil, fmt.Errorf("hash constant %s out of range", k)
-		}
-		out[k] = text[st : st+n]
-	}
-	return out, nil
-}
-
-// c03TraitConsts evaluates the two `1 << iota` const blocks of html/table.go
-func c03TraitConsts(r *Repo) (map[string]int, []string, error) {
-	fs, err := r.Files("html")
-	if err != nil {
-		return nil, nil, err
-	}
+// c03TraitConsts: the trait bits of the two const blocks of html/table.go (tag traits, attribute traits), name ↦ bit
+func c03TraitConsts(e *tenv) (map[string]int, []string, error) {
 	out := map[string]int{}
 	var order []string
-	for _, f := range fs {
-		for _, d := range f.Decls {
-			gd, ok := d.(*ast.GenDecl)
-			if !ok || gd.Tok != token.CONST || len(gd.Specs) == 0 {
-				continue
-			}
-			first := gd.Specs[0].(*ast.ValueSpec)
-			id, ok := first.Type.(*ast.Ident)
-			if !ok || id.Name != "traits" {
-				continue
-			}
-			be, ok := first.Values[0].(*ast.BinaryExpr)
-			if !ok || be.Op != token.SHL {
-				return nil, nil, fmt.Errorf("traits const block: expected `1 << iota`")
-			}
-			if one, ok := be.X.(*ast.BasicLit); !ok || one.Value != "1" {
-				return nil, nil, fmt.Errorf("traits const block: expected `1 << iota`")
-			}
-			if io, ok := be.Y.(*ast.Ident); !ok || io.Name != "iota" {
-				return nil, nil, fmt.Errorf("traits const block: expected `1 << iota`")
-			}
-			for i, s := range gd.Specs {
-				vs := s.(*ast.ValueSpec)
-				if i > 0 && (len(vs.Values) != 0 || vs.Type != nil) {
-					return nil, nil, fmt.Errorf("traits const block: unexpected explicit value for %s", vs.Names[0].Name)
-				}
-				if len(vs.Names) != 1 {
-					return nil, nil, fmt.Errorf("traits const block: multiple names")
-				}
-				out[vs.Names[0].Name] = 1 << i
-				order = append(order, vs.Names[0].Name)
-			}
+	for _, first := range []string{"normalTag", "booleanAttr"} {
+		names, bits, err := c17TraitConsts(e, "html", first)
+		if err != nil {
+			return nil, nil, err
+		}
+		for _, n := range names {
+			out[n] = int(bits[n])
+			order = append(order, n)
 		}
 	}
 	for _, want := range []string{"normalTag", "rawTag", "blockTag", "objectTag", "omitPTag", "keepPTag", "booleanAttr", "urlAttr", "trimAttr"} {
@@ -225,83 +119,33 @@ func c03TraitConsts(r *Repo) (map[string]int, []string, error) {
 	return out, order, nil
 }
 
-func c03EvalTraits(e ast.Expr, consts map[string]int) (int, error) {
-	switch x := e.(type) {
-	case *ast.Ident:
-		v, ok := consts[x.Name]
-		if !ok {
-			return 0, fmt.Errorf("unknown trait %s", x.Name)
-		}
-		return v, nil
-	case *ast.BinaryExpr:
-		if x.Op != token.OR {
-			return 0, fmt.Errorf("unexpected operator in traits")
-		}
-		a, err := c03EvalTraits(x.X, consts)
-		if err != nil {
-			return 0, err
-		}
-		b, err := c03EvalTraits(x.Y, consts)
-		if err != nil {
-			return 0, err
-		}
-		return a | b, nil
-	case *ast.ParenExpr:
-		return c03EvalTraits(x.X, consts)
-	case *ast.BasicLit:
-		v, err := strconv.Atoi(x.Value)
-		return v, err
-	}
-	return 0, fmt.Errorf("unexpected traits expression %T", e)
-}
-
-func c03MapLit(r *Repo, name string) (*ast.CompositeLit, error) {
-	e, err := r.FindVar("html", name)
-	if err != nil {
-		return nil, err
-	}
-	cl, ok := e.(*ast.CompositeLit)
-	if !ok {
-		return nil, fmt.Errorf("html.%s is not a composite literal any more", name)
-	}
-	if _, ok := cl.Type.(*ast.MapType); !ok {
-		return nil, fmt.Errorf("html.%s is not a map literal any more", name)
-	}
-	return cl, nil
-}
-
 type c03kv struct {
 	k string
 	v string
 	n int
 }
 
-func c03TraitTable(r *Repo, name string, hashes map[string]string, consts map[string]int) ([]c03kv, error) {
-	cl, err := c03MapLit(r, name)
+func c03TraitTable(e *tenv, h *hashInfo, name string) ([]c03kv, error) {
+	kvs, p, _, err := e.MapVar("html", name)
 	if err != nil {
 		return nil, err
 	}
 	var rows []c03kv
 	seen := map[string]bool{}
-	for _, el := range cl.Elts {
-		kv := el.(*ast.KeyValueExpr)
-		id, ok := kv.Key.(*ast.Ident)
-		if !ok {
-			return nil, fmt.Errorf("%s: key is not a hash constant", name)
-		}
-		nm, ok := hashes[id.Name]
-		if !ok {
-			return nil, fmt.Errorf("%s: unknown hash constant %s", name, id.Name)
-		}
-		v, err := c03EvalTraits(kv.Value, consts)
+	for _, kv := range kvs {
+		nm, err := c17HashKey(e, p, h, kv.Key, name)
 		if err != nil {
-			return nil, fmt.Errorf("%s[%s]: %v", name, id.Name, err)
+			return nil, err
+		}
+		v, err := e.Int(p, kv.Val)
+		if err != nil {
+			return nil, fmt.Errorf("%s[%s]: %v", name, nm, err)
 		}
 		if seen[nm] {
 			return nil, fmt.Errorf("%s: duplicate key %s", name, nm)
 		}
 		seen[nm] = true
-		rows = append(rows, c03kv{k: nm, n: v})
+		rows = append(rows, c03kv{k: nm, n: int(v)})
 	}
 	sort.Slice(rows, func(i, j int) bool { return rows[i].k < rows[j].k })
 	return rows, nil
@@ -398,11 +242,15 @@ func init() {
 	})
 
 	gen("C03Tables", func(r *Repo) (string, error) {
-		hashes, err := c03Hashes(r)
+		e, err := r.TEnv()
 		if err != nil {
 			return "", err
 		}
-		consts, order, err := c03TraitConsts(r)
+		h, err := e.HashInfo("html")
+		if err != nil {
+			return "", err
+		}
+		consts, order, err := c03TraitConsts(e)
 		if err != nil {
 			return "", err
 		}
@@ -412,7 +260,7 @@ func init() {
 			fmt.Fprintf(&b, "def %s : Nat := %d\n", n, consts[n])
 		}
 		for _, tn := range []string{"tagMap", "attrMap"} {
-			rows, err := c03TraitTable(r, tn, hashes, consts)
+			rows, err := c03TraitTable(e, h, tn)
 			if err != nil {
 				return "", err
 			}
@@ -429,8 +277,8 @@ func init() {
 		// all hash names (the names ToHash recognises)
 		{
 			var names []string
-			for _, v := range hashes {
-				names = append(names, v)
+			for v := range h.table {
+				names = append(names, h.Name(int64(v)))
 			}
 			sort.Strings(names)
 			b.WriteString("\n/-- every name known to html.ToHash -/\ndef hashNames : List (List Char) := [\n")
@@ -445,21 +293,23 @@ func init() {
 		}
 		// jsMimetypes
 		{
-			cl, err := c03MapLit(r, "jsMimetypes")
+			kvs, p, _, err := e.MapVar("html", "jsMimetypes")
 			if err != nil {
 				return "", err
 			}
 			var names []string
-			for _, el := range cl.Elts {
-				kv := el.(*ast.KeyValueExpr)
-				k, err := c03StrLit(kv.Key)
+			for _, kv := range kvs {
+				k, err := e.Bytes(p, kv.Key)
 				if err != nil {
 					return "", err
 				}
-				if id, ok := kv.Value.(*ast.Ident); !ok || id.Name != "true" {
-					return "", fmt.Errorf("jsMimetypes[%s] is not `true`", k)
+				on, err := e.Bool(p, kv.Val)
+				if err != nil {
+					return "", fmt.Errorf("jsMimetypes[%s]: %v", k, err)
 				}
-				names = append(names, k)
+				if on { // a row mapped to false reads like an absent one
+					names = append(names, k)
+				}
 			}
 			sort.Strings(names)
 			b.WriteString("\ndef jsMimetypes : List (List Char) := [")
@@ -473,21 +323,20 @@ func init() {
 		}
 		// EntitiesMap
 		{
-			cl, err := c03MapLit(r, "EntitiesMap")
+			kvs, p, _, err := e.MapVar("html", "EntitiesMap")
 			if err != nil {
 				return "", err
 			}
 			var rows []c03kv
 			seen := map[string]bool{}
-			for _, el := range cl.Elts {
-				kv := el.(*ast.KeyValueExpr)
-				k, err := c03StrLit(kv.Key)
+			for _, kv := range kvs {
+				k, err := e.Bytes(p, kv.Key)
 				if err != nil {
 					return "", err
 				}
-				v, err := c03BytesLit(kv.Value)
+				v, err := e.Bytes(p, kv.Val)
 				if err != nil {
-					return "", err
+					return "", fmt.Errorf("EntitiesMap[%s]: %v", k, err)
 				}
 				if seen[k] {
 					return "", fmt.Errorf("EntitiesMap: duplicate key %s", k)
@@ -509,23 +358,20 @@ func init() {
 		}
 		// TextRevEntitiesMap, AttrRevEntitiesMap
 		for _, mp := range [][2]string{{"TextRevEntitiesMap", "textRevEntitiesMap"}, {"AttrRevEntitiesMap", "attrRevEntitiesMap"}} {
-			cl, err := c03MapLit(r, mp[0])
+			kvs, p, _, err := e.MapVar("html", mp[0])
 			if err != nil {
 				return "", err
 			}
 			var rows []c03kv
-			for _, el := range cl.Elts {
-				kv := el.(*ast.KeyValueExpr)
-				k, err := c03StrLit(kv.Key)
-				if err != nil {
-					return "", err
+			for _, kv := range kvs {
+				c, err := e.Int(p, kv.Key)
+				if err != nil || c < 0 || c > 255 {
+					return "", fmt.Errorf("%s: key is not one constant byte (%v)", mp[0], err)
 				}
-				v, err := c03BytesLit(kv.Value)
+				k := string([]byte{byte(c)})
+				v, err := e.Bytes(p, kv.Val)
 				if err != nil {
-					return "", err
-				}
-				if len(k) != 1 {
-					return "", fmt.Errorf("%s: key is not one byte", mp[0])
+					return "", fmt.Errorf("%s[%q]: %v", mp[0], k, err)
 				}
 				rows = append(rows, c03kv{k: k, v: v})
 			}
